@@ -465,6 +465,32 @@ func (m *ctlModel) eval(fr *mFrame, e Expr) (mValue, completion) {
 		}
 	case *EArrayFrom, *ESetSize, *EMapSize:
 		return m.evalConsume(fr, e)
+	case *EObjLit:
+		av, c := m.eval(fr, e.A)
+		if abruptExpr(c) {
+			return nil, c
+		}
+		bv, c := m.eval(fr, e.B)
+		if abruptExpr(c) {
+			return nil, c
+		}
+		return mNorm(av) + mNorm(bv), normalC
+	case *EArrLit:
+		if _, c := m.eval(fr, e.A); abruptExpr(c) {
+			return nil, c
+		}
+		return m.eval(fr, e.B)
+	case *EPropSet:
+		return m.eval(fr, e.E)
+	case *ECompound:
+		old := mNorm(m.lookup(fr, e.Var))
+		v, c := m.eval(fr, e.E)
+		if abruptExpr(c) {
+			return nil, c
+		}
+		nv := old + mNorm(v)
+		m.assign(fr, e.Var, nv)
+		return nv, normalC
 	case *ETemplate:
 		l := 0
 		for i, p := range e.Parts {
